@@ -2,6 +2,7 @@ package main
 
 import (
 	"bytes"
+	"encoding/asn1"
 	"fmt"
 	"math/big"
 	"sync/atomic"
@@ -52,6 +53,12 @@ func findInvalidCurvePoint(r *mon.RNG) (x, y, bp *big.Int) {
 		bp.Mod(bp, ref.P)
 		return
 	}
+}
+
+// c02Asn1 is the ASN.1 ciphertext layout (GM/T 0009): x, y, C3, C2.
+type c02Asn1 struct {
+	X, Y *big.Int
+	H, C []byte
 }
 
 func runC02(c *Ctx) {
@@ -558,8 +565,60 @@ func runC02(c *Ctx) {
 					rep.Violation("C02/DecryptAsn1/panic/"+pi.Func+"/byte-change", pi.Value, ww)
 				} else if err == nil && !bytes.Equal(out, m.msg) {
 					rep.Violation("C02/DecryptAsn1/accepts-altered-ciphertext", fmt.Sprintf("position %d: decrypted to %s", p, mon.Hex(out)), ww)
+				} else if err == nil {
+					// accepted with the right plaintext: fine if the change was a re-encoding of the same four values; not if the
+					// altered bytes are a strict DER encoding of OTHER values (then C1, C3 or C2 itself was changed)
+					var orig, alt c02Asn1
+					if _, e0 := asn1.Unmarshal(m.asn1, &orig); e0 == nil {
+						if rest, e1 := asn1.Unmarshal(x, &alt); e1 == nil && len(rest) == 0 && (alt.X.Cmp(orig.X) != 0 || alt.Y.Cmp(orig.Y) != 0 || !bytes.Equal(alt.H, orig.H) || !bytes.Equal(alt.C, orig.C)) {
+							rep.Violation("C02/DecryptAsn1/accepts-altered-ciphertext/same-plaintext-from-changed-values", fmt.Sprintf("position %d: the altered bytes are valid DER of other values (x %x y %x) and still decrypt", p, alt.X, alt.Y), ww)
+						}
+					}
 				}
 				rep.Eval("reject/asn1-byte-change")
+			}
+			// the coordinates of C1 replaced by other integers with the same low 256 bits or the same residue mod p (re-encoded
+			// as strict DER): C1 is then not a point of the curve, whatever an implementation truncates or reduces
+			var orig c02Asn1
+			if _, e0 := asn1.Unmarshal(m.asn1, &orig); e0 == nil && orig.X != nil && orig.Y != nil {
+				two256 := new(big.Int).Lsh(big.NewInt(1), 256)
+				for _, v := range []struct {
+					name string
+					f    func(*big.Int) *big.Int
+				}{
+					{"+2^256", func(a *big.Int) *big.Int { return new(big.Int).Add(a, two256) }},
+					{"+0x7f*2^256", func(a *big.Int) *big.Int { return new(big.Int).Add(a, new(big.Int).Mul(big.NewInt(0x7f), two256)) }},
+					{"+2^264", func(a *big.Int) *big.Int { return new(big.Int).Add(a, new(big.Int).Lsh(big.NewInt(1), 264)) }},
+					{"+p", func(a *big.Int) *big.Int { return new(big.Int).Add(a, ref.P) }},
+					{"-2^256(negative)", func(a *big.Int) *big.Int { return new(big.Int).Sub(a, two256) }},
+					{"negated", func(a *big.Int) *big.Int { return new(big.Int).Neg(a) }},
+				} {
+					for ci, coord := range []string{"x", "y"} {
+						alt := c02Asn1{X: orig.X, Y: orig.Y, H: orig.H, C: orig.C}
+						if ci == 0 {
+							alt.X = v.f(orig.X)
+						} else {
+							alt.Y = v.f(orig.Y)
+						}
+						if alt.X.Sign() == 0 || alt.Y.Sign() == 0 {
+							continue
+						}
+						der, e := asn1.Marshal(alt)
+						if e != nil {
+							continue
+						}
+						ww := w()
+						ww["asn1"] = mon.Hex(der)
+						var out []byte
+						var err error
+						if pi := mon.Guard(func() { out, err = sm2.DecryptAsn1(m.key.priv(), der) }); pi != nil {
+							rep.Violation("C02/DecryptAsn1/panic/"+pi.Func+"/coordinate-out-of-range", pi.Value, ww)
+						} else if err == nil {
+							rep.Violation("C02/DecryptAsn1/accepts/C1-coordinate-out-of-range/"+coord+v.name, "decrypted to "+mon.Hex(out), ww)
+						}
+						rep.Eval("reject/asn1-coordinate-" + coord + v.name)
+					}
+				}
 			}
 			for l := 0; l < len(m.asn1); l += 1 + len(m.asn1)/40 {
 				ww := w()
@@ -583,6 +642,7 @@ func runC02(c *Ctx) {
 			key := keys[i%len(keys)]
 			x, y, bp := findInvalidCurvePoint(r)
 			msg := r.Bytes(1 + r.Intn(48))
+			pc := byte(4)
 			build := func(qx, qy *big.Int) []byte {
 				x2, y2 := ref.Pad32(qx), ref.Pad32(qy)
 				t := ref.KDF(append(append([]byte{}, x2...), y2...), len(msg))
@@ -591,7 +651,7 @@ func runC02(c *Ctx) {
 					c2[j] = msg[j] ^ t[j]
 				}
 				c3 := ref.SM3(append(append(append([]byte{}, x2...), msg...), y2...))
-				out := []byte{4}
+				out := []byte{pc}
 				out = append(out, ref.Pad32(x)...)
 				out = append(out, ref.Pad32(y)...)
 				out = append(out, c3...)
@@ -602,6 +662,13 @@ func runC02(c *Ctx) {
 			q := ref.Mul(key.d, ref.Point{X: x, Y: y})
 			if !q.Inf {
 				mustReject("invalid-curve-C1", "Q-by-generic-law", key.priv(), build(q.X, q.Y), sm2.C1C3C2, msg, w)
+				// the same forgery under every point-conversion octet an implementation might honour (hybrid 06/07 with the
+				// parity of y either way, compressed, zero, anything): the point is off the curve whatever the octet says
+				for _, o := range []byte{0x06 | byte(y.Bit(0)), 0x07 ^ byte(y.Bit(0)), 0x02 | byte(y.Bit(0)), 0x03 ^ byte(y.Bit(0)), 0x00, 0x05, 0xff} {
+					pc = o
+					mustReject("invalid-curve-C1", fmt.Sprintf("Q-by-generic-law/PC=%02x", o&0xfe), key.priv(), build(q.X, q.Y), sm2.C1C3C2, msg, w)
+				}
+				pc = 4
 			}
 			// (b) Q by gmsm's own ScalarMult on that off-curve point (whatever it computes)
 			var gx, gy *big.Int
